@@ -67,8 +67,38 @@ fn text_of(n: usize, dotted: bool) -> String {
     s
 }
 
+/// Element of a uniform list of the given kind (operations whose code looks at the elements —
+/// drop, clone, == — are also run on long runs of every kind of element).
+fn elem_of(kind: &str) -> Value {
+    match kind {
+        "nil" => Value::Nil,
+        "null" => Value::Null,
+        "bool" => Value::Bool(false),
+        "float" => Value::from(1.5),
+        "char" => Value::Char('c'),
+        "string" => Value::string("s"),
+        "symbol" => Value::symbol("a"),
+        "keyword" => Value::keyword("k"),
+        "bytes" => Value::bytes(vec![1u8]),
+        "vector" => Value::Vector(vec![Value::Nil].into_boxed_slice()),
+        "pair" => Value::Cons(Cons::new(Value::Nil, Value::Nil)),
+        _ => Value::from(7u64),
+    }
+}
+
+fn build_uniform(kind: &str, n: usize, dotted: bool) -> Value {
+    let mut acc = if dotted { Value::symbol("t") } else { Value::Null };
+    for _ in 0..n {
+        acc = Value::Cons(Cons::new(elem_of(kind), acc));
+    }
+    acc
+}
+
 fn build(route: &str, n: usize, dotted: bool) -> Value {
     let tail = if dotted { Value::symbol("t") } else { Value::Null };
+    if let Some(kind) = route.strip_prefix("uniform-") {
+        return build_uniform(kind, n, dotted);
+    }
     match route {
         "constructor" => Value::append((0..n).map(|i| Value::from((i % 10) as u64)), tail),
         "cons-new" => {
@@ -295,8 +325,12 @@ pub fn child_listop(c: &J) -> String {
 fn routes_for(op: &str) -> Vec<&'static str> {
     if op.starts_with("parse-") || op.starts_with("datum-") || op.starts_with("serde-") {
         vec!["text"]
-    } else if op == "build-only" || op == "drop" || op == "clone" || op == "eq" {
+    } else if op == "drop" || op == "clone" || op == "eq" {
+        vec!["constructor", "cons-new", "parser", "serde", "uniform-nil", "uniform-null", "uniform-bool", "uniform-float", "uniform-char", "uniform-string", "uniform-symbol", "uniform-keyword", "uniform-bytes", "uniform-vector", "uniform-pair"]
+    } else if op == "build-only" {
         vec!["constructor", "cons-new", "parser", "serde"]
+    } else if op == "to_string" || op == "cons.into_vec" || op == "into_iter-half" || op == "list_iter-half" || op == "cons.to_vec" {
+        vec!["constructor", "uniform-nil", "uniform-pair", "uniform-string"]
     } else {
         vec!["constructor"]
     }
